@@ -310,6 +310,31 @@ pub fn scan_request(f: &[u8]) -> Option<(String, String)> {
     Some((req, resp))
 }
 
+/// oracle entries (as in `scan` requests) for every stream analysis `expand` makes on `f`
+pub fn oracle_entries(f: &[u8]) -> Option<String> {
+    let (_, tape) = match guarded(|| vh::expand_with_tape(f)) {
+        Run::Done(x) => x,
+        Run::Panic(_) => return None,
+    };
+    let mut req = format!("{}", tape.len());
+    for p in &tape {
+        match p.accepted {
+            None => req.push_str(&format!(" {}:{}:rej", p.input_len, p.digest)),
+            Some((size, _, _)) => {
+                let r = match guarded(|| preflate_rs::decompress_deflate_stream(&p.input, true, 0)) {
+                    Run::Done(Ok(r)) => r,
+                    _ => return None,
+                };
+                if r.compressed_size != size || size > p.input.len() {
+                    return None;
+                }
+                req.push_str(&format!(" {}:{}:{}:{}:{}:{}", p.input_len, p.digest, size, hex(&r.plain_text), hex(&r.prediction_corrections), hex(&p.input[..size])));
+            }
+        }
+    }
+    Some(req)
+}
+
 pub fn c01_bytes(f: &[u8], label: &str, with_zstd: bool) -> CaseOut {
     let mut out = CaseOut::default();
     if f.len() <= 6000 && (f.len() > 3 || with_zstd) {
@@ -714,10 +739,25 @@ fn random_sched(r: &mut Rng, n: usize, style: u64) -> Vec<Io> {
 }
 
 pub fn c13_check(f: &[u8], c: &[u8], rs: &[Io], ws: &[Io], rfail: Option<usize>, wfail: Option<usize>, label: &str) -> CaseOut {
+    c13_check_o(f, c, rs, ws, rfail, wfail, label, None)
+}
+
+pub fn c13_check_o(f: &[u8], c: &[u8], rs: &[Io], ws: &[Io], rfail: Option<usize>, wfail: Option<usize>, label: &str, entries: Option<&str>) -> CaseOut {
     let mut out = CaseOut::default();
     let replay = format!("recreate {} {} {} {} {}\nfile {}", hex(c), sched_str(rs), sched_str(ws), opt_str(rfail), opt_str(wfail), hex(f));
     let fail = |sig: String, detail: String| Failure { kind: "oracle".into(), signature: sig, detail: format!("{detail} [{label}]"), replay: replay.clone() };
     let run = recreate_io(c, rs, ws, rfail, wfail);
+    if let (Some(e), None, None) = (entries, rfail, wfail) {
+        let word = match &run.result {
+            Run::Panic(_) => "panic",
+            Run::Done(Ok(())) => "ok",
+            Run::Done(Err(_)) => "err",
+        };
+        out.requests.push((
+            format!("recreateio {} {} {} {}", hex(c), sched_str(rs), sched_str(ws), e),
+            format!("{} {} {}", word, run.sink.len(), fnv64(&run.sink)),
+        ));
+    }
     let is_prefix = run.sink.len() <= f.len() && run.sink[..] == f[..run.sink.len()];
     match &run.result {
         Run::Panic(p) => out.failures.push(fail(format!("panic {}", panic_signature(p)), format!("recreated_zlib_chunks panicked under I/O schedule: {p}"))),
@@ -780,10 +820,11 @@ pub fn c13_case(seed: u64, idx: u64, thorough: bool) -> Vec<CaseOut> {
     }
     let mut outs = Vec::new();
     let label = fc.label;
+    let entries = if c.len() <= 4000 { oracle_entries(&f) } else { None };
     for style in 0..4 {
         let rs = random_sched(&mut r, (c.len() + 8).min(3000), style);
         let ws = random_sched(&mut r, (f.len() + 8).min(3000), (style + 1) % 4);
-        outs.push(c13_check(&f, &c, &rs, &ws, None, None, &label));
+        outs.push(c13_check_o(&f, &c, &rs, &ws, None, None, &label, entries.as_deref()));
     }
     // error at source / sink offsets
     let noffs = if thorough { 24 } else { 6 };
@@ -822,7 +863,7 @@ pub fn c13_case(seed: u64, idx: u64, thorough: bool) -> Vec<CaseOut> {
             let i = r.below(ws.len() as u64) as usize;
             ws[i] = *r.pick(&[Io::Error, Io::Zero]);
         }
-        outs.push(c13_check(&f, &c, &rs, &ws, None, None, &label));
+        outs.push(c13_check_o(&f, &c, &rs, &ws, None, None, &label, entries.as_deref()));
     }
     outs
 }
